@@ -828,3 +828,89 @@ func deep(c *ev.Case) {
 		c.Sample(fmt.Sprintf("alphabet %s: %d patterns around one of %d bytes (long suffix, prefix, infix, extension, late sibling, short ones); 3 texts up to %d bytes and 6 keys compared", al.name, len(pats), n, 5*n))
 	}
 }
+
+// ---- fanspan: one node with thousands of children spread over the whole code space ----
+
+// spanRune maps i of k evenly over ['a', U+10FFFF], stepping over the surrogates.
+func spanRune(i, k int) rune {
+	lo, hi := int64('a'), int64(0x10FFFF-0x800)
+	r := rune(lo + int64(i)*(hi-lo)/int64(k-1))
+	if r >= 0xD800 {
+		r += 0x800
+	}
+	return r
+}
+
+// fanspan: a node (the root, or the node behind a common first rune) gets 1500..12000
+// children whose runes run from 'a' to U+10FFFF — a child lookup that interpolates, hashes
+// or buckets by rune value works on (rune - lowest) * (children - 1), which leaves 32 bits
+// only for such nodes. Texts and keys hold runes from both ends of the span, present and
+// absent ones. Oracle as everywhere: the byte-wise brute force.
+func fanspan(c *ev.Case) {
+	rng := c.Rng
+	k := rng.Pick(1500, 2048, 2500, 3000, 3800, 4096, 6000, 12000)
+	stem := ""
+	if rng.Chance(1, 3) {
+		stem = string(spanRune(rng.Intn(k), k)) // the wide node is one level down
+	}
+	step := 1
+	if rng.Chance(1, 4) {
+		step = 2 // every second rune is absent: lookups of absent runes inside the span
+	}
+	rs := make([]rune, 0, k)
+	pats := make([]string, 0, k+16)
+	for i := 0; i < k; i += step {
+		r := spanRune(i, k)
+		rs = append(rs, r)
+		pats = append(pats, stem+string(r))
+	}
+	if step == 2 { // both ends are always children
+		rs = append(rs, 0x10FFFF)
+		pats = append(pats, stem+string(rune(0x10FFFF)))
+	}
+	al := alphabet{"span", rs}
+	for i := 0; i < 12; i++ { // a few longer patterns through the wide node
+		pats = append(pats, stem+randRunes(rng, al, rng.Range(2, 4)))
+	}
+	s := build(c, pats, rng.Chance(1, 6))
+	if s == nil {
+		return
+	}
+	c.Add("fanspan_tries", 1)
+	if s.maxFanout >= 1930 {
+		c.Add("fanspan_tries_fanout_ge_1930", 1)
+	}
+	top := alphabet{"span-top", append([]rune{'a', 'b', 0x10FFFE, 0x10FFFD, 0xFFFF, 0x10000}, rs[len(rs)-8:]...)}
+	for i := 0; i < 8; i++ {
+		kind := []int{textRandom, textOverlap, textBytes, textRandom}[i%4]
+		tal := al
+		if i >= 4 {
+			tal = top // mostly the top of the span, present and absent runes
+		}
+		text := stem + genText(rng, tal, s.dpats, kind, rng.Pick(6, 24, 60))
+		c.Max("max_text_bytes", int64(len(text)))
+		if !s.checkText(text, kind) {
+			return
+		}
+		c.Add("fanspan_texts", 1)
+	}
+	for i := 0; i < 6; i++ {
+		key, class := s.genKey(al)
+		switch i {
+		case 0:
+			key, class = stem, "span_stem" // enumerates the wide node
+		case 1:
+			key, class = stem+string(rune(0x10FFFF)), "span_top"
+		case 2:
+			key, class = stem+string(rune(0x10FFFE)), "span_absent_top"
+		}
+		if !s.checkKey(key, class) {
+			return
+		}
+		c.Add("fanspan_keys", 1)
+	}
+	c.Distinct(s.hash)
+	if c.WantSample() {
+		c.Sample(fmt.Sprintf("fanspan: %d patterns, one node with %d children from 'a' to U+10FFFF (stem %+q, every %d-th of %d evenly spread runes); 8 texts and 6 keys compared", len(pats), s.maxFanout, stem, step, k))
+	}
+}
